@@ -67,6 +67,7 @@ WORD_TOKENS = [b"True", b"False", b"Null", b"NULL", b"TRUE", b"FALSE", b"None", 
 
 
 # complete string literals whose bytes are not UTF-8: one malformed value each
+NUL_RUNS = [b"\x00\x00", b"\x00\x00\x00\x00", b"\x00", b"\x00\x00\x00"]
 BAD_STRINGS = [b'"caf\xe9"', b'"\xff"', b'"a\xc3"', b'"\xed\xa0\x80"', b'"\xf8\x88\x80\x80\x80"', b'"ok \xe2\x82 cut"', b'"\x80"']
 
 
@@ -75,6 +76,8 @@ def gen_token(rng):
         return rng.choice(BROKEN_NUMBERS)
     if rng.random() < 0.05:
         return rng.choice(BAD_STRINGS)
+    if rng.random() < 0.04:
+        return rng.choice(NUL_RUNS)       # what a log file truncated in place is padded with
     if rng.random() < 0.08:
         return rng.choice(WORD_TOKENS)
     n = rng.choice((1, 1, 1, 2, 3, 6))
